@@ -482,8 +482,10 @@ def run(ctx, report: Report) -> None:
 
     # ---- R5 (the whole pipeline by interpretation, bounded) --------------------------------------------------------------
     r5 = report.rule('C04-R5', 'a compiled selector answers the same after any sequence of other queries (bounded)', floor=3)
-    from .e2ematch import history_table
+    from .e2ematch import history_table, lookalike_table, one_call_table
     history_table(ctx, r5)
+    one_call_table(ctx, r5, deep=(ctx.tier == 'thorough'))
+    lookalike_table(ctx, r5)
 
 
 
